@@ -199,10 +199,19 @@ def no_stale_state(rec, item):
             npaths += 1
             _collect_safety(rec, pr.I, desc)
     uniq = sorted(set(stale))
-    rec.oblig("a new set-up and its iterations never use a global or function-local static last written by an earlier simulation", "holds" if not uniq else "violated", uniq[:5], 0, desc)
+    rp = _replay_history_dependence() if uniq else None
+    # The life-cycle bookkeeping of the native library (is a simulation live, which object, of which space type) is process-lifetime
+    # storage by design: a set-up that consults it in order to RELEASE the previous simulation (a leak fix) reads a value an earlier
+    # simulation wrote, legitimately. Such a read is accepted when the real build shows no dependence on history (same script and seed
+    # after five different histories, abandoned set-ups included); the field-by-field comparison of set-ups after different histories
+    # (fresh_fields) is the semantic leg next to it. Any other stale read, or one with an observable effect, is reported as before.
+    bookkeeping = {"global_algo_freed", "global_grid_algo", "global_graph_algo", "global_space_type"}
+    harmless = bool(uniq) and all(u[0] in bookkeeping for u in uniq) and rp is not None and not rp[0]
+    rec.oblig("a new set-up and its iterations never use a global or function-local static last written by an earlier simulation"
+              + (" (only the life-cycle bookkeeping is consulted; no dependence on history on the real build)" if harmless else ""),
+              "holds" if (not uniq or harmless) else "violated", uniq[:5], 0, desc)
     rec.vacuity_witness(desc, npaths > 0, "%d paths" % npaths)
-    if uniq:
-        rp = _replay_history_dependence()
+    if uniq and not harmless:
         rec.violation("stale-process-state:%s" % uniq[0][0], "engine code uses %s '%s' (%s) whose value was left behind by a previous simulation: results depend on what ran earlier in the process; real build: %s"
                       % (uniq[0][2], uniq[0][0], uniq[0][1], rp[1]), {"structure": desc, "stale": [list(u) for u in uniq]}, replayed=rp[0])
 
